@@ -974,9 +974,23 @@ def _shrink(spec: Spec, ops: list, key: str, exact: bool) -> list:
     return ops
 
 
+def refused_read(ctx: Ctx) -> None:
+    """a fresh network on which the read of an incomplete checkpoint was refused, then filled from the older checkpoint
+    (or by offers): it must hold exactly what it was given — minima left behind by the refused read would sit in the
+    graph next to, or under the labels of, the ones stored afterwards"""
+    from props import c06
+    for i in range(ctx.scale(6, 30)):
+        why, _k, _spec, rep = c06.failed_read_case(ctx.rng, missing=c06.TABLE_FILES[i % 5] if i < 5 else None, into_fresh=True)
+        ctx.stats.case({"stream": "predicate-refused-read", "missing": rep["failed_read"]["missing"]}, True)
+        if why:
+            ctx.fail("stored-once:after-refused-read", why, rep)
+            return
+
+
 def predicates(ctx: Ctx) -> None:
     rng = ctx.rng
     np.random.seed(rng.randrange(1 << 30))
+    refused_read(ctx)
     for name, spec, ops in corpus():
         r = check_stream(spec, ops, True)
         ctx.stats.case({"stream": "predicate-corpus", "name": name}, True)
@@ -1078,6 +1092,9 @@ def atomic_copies(ctx: Ctx) -> None:
 
 
 def replay(ctx: Ctx, data: dict) -> bool:
+    if "failed_read" in data:
+        from props import c06
+        return c06.replay(ctx, data)
     if "spec" not in data or "ops" not in data:
         rep = data.get("divergences") or []
         for d in rep:
